@@ -198,7 +198,7 @@ def gen_intervals(rnd, n):
         text = (a + "/" + dtext) if form == 1 else (dtext + "/" + a)
         out.append({"stream": "interval-start-duration" if form == 1 else "interval-duration-end", "fn": "interval",
                     "args": [text, {"form": form, "a": a, "b": None, "comp": comp}]})
-    # date-only endpoints (TypeError finding, C17's territory) and malformed pieces
+    # date-only endpoints (read at midnight; before the repair of C17 interval-non-datetime-endpoint they raised TypeError) and malformed pieces
     for text, form in (("2021-01-01/P1D", 1), ("P1D/2021-01-01", 2), ("2020-02-29/P1Y", 1), ("PT1H/1999-12-31", 2)):
         comp = {"D": "1"} if "P1D" in text else ({"Y": "1"} if "P1Y" in text else {"H": "1"})
         out.append({"stream": "interval-date-endpoint", "fn": "interval", "args": [text, {"form": form, "a": text.replace("/", "").replace(render(comp), ""), "b": None, "comp": comp, "date": True}]})
@@ -427,9 +427,7 @@ def oracle(c, backend, r):
         if r[0] == 1 or len(r) != 27:
             return f"{a[0]!r}: expected an Interval, got {r[-2:] if r[0] == 0 else r}"
         start, end = _from8(r[10:18]), _from8(r[18:26])
-        if meta.get("date"):
-            return f"{a[0]!r}: date endpoints are outside this oracle"
-        A = _parse_dt(meta["a"])
+        A = _parse_dt(meta["a"])          # a date endpoint next to a duration is read at midnight (UTC by default), like any other given endpoint
         if meta["form"] == 0:
             B = _parse_dt(meta["b"])
             return None if (start, end) == (A, B) and (start.utcoffset(), end.utcoffset()) == (A.utcoffset(), B.utcoffset()) else f"{a[0]!r}: endpoints {start} {end}"
@@ -457,7 +455,8 @@ def _classify(comp, backend, res_is_overflow):
     """Which listed defect of the duration parsers explains a wrong value for these components?"""
     fr = comp.get("frac")
     if not representable(comp):
-        # the exact value does not fit a timedelta: the constructor's OverflowError escapes (both backends) ...
+        # the exact value does not fit a timedelta: before the repair the constructor's OverflowError escaped (both backends); the finding is
+        # `fixed` (except clauses in parse_iso8601 and parser._parse), so an OverflowError here is reported as a VIOLATION under this id ...
         if res_is_overflow:
             return "too-large-overflowerror"
         # ... or the 32-bit accumulator wrapped first (compiled parser only)
@@ -497,8 +496,8 @@ def known(c, backend, r):
         return _classify(meta["comp"], backend, res == [1, "OverflowError"])
     if fn == "interval":
         meta = a[1]
-        if meta.get("date"):
-            return "interval-date-endpoint-typeerror" if r[-2:] == [1, "TypeError"] else None
+        if meta.get("date") and r[-2:] == [1, "TypeError"]:
+            return "interval-date-endpoint-typeerror"      # `fixed`: reported as a VIOLATION under this id if it comes back
         if meta["comp"] is None:
             return None
         k = _classify(meta["comp"], backend, r[-2:] == [1, "OverflowError"])
@@ -514,9 +513,16 @@ def known(c, backend, r):
 
 LEVEL_TEXT = ("Machine-checked Coq theorems about executable models of both duration parsers (hand models of rust/src/parsing.rs with explicit u32 wrap-around and "
               "SpecFloat f64, and of the ISO8601_DURATION matcher + _parse_iso8601_duration + CPython's timedelta float constructor): integer-component durations "
-              "parse to their exact value in both backends for every digit string (Rust: modulo 2^32 per component), refutations by witness for the fraction and "
+              "parse to their exact value in both backends for every digit string (Rust: modulo 2^32 per component) and are rejected with a ValueError when "
+              "the total exceeds timedelta's 999999999 days (no OverflowError on any string); a duration with ONE fraction digit parses to its exact value for EVERY integer part "
+              "(dur_frac_1digit_py: pure Python on D H M S, bound = timedelta's range only; dur_frac_1digit_rs: compiled parser on D H M S W, integer part modulo 2^32) "
+              "and the pure-Python week fraction is wrong for every integer part (dur_frac_1digit_py_weeks_refuted_all); refutations by witness for the longer fractions and "
               "wrap-around defects, rejection theorems; three-way correspondence (implementation both backends / model / Fraction oracle) on seeded streams.")
 DESIGN_REF = "DESIGN.md section 4 C13"
 LEVEL_NOTE = ("Trusted: Coq kernel+VM, the hand models (tied by correspondence every run, the Rust one on all eight raw fields), extraction+driver, the Fraction oracle. "
-              "Interval endpoints are checked by correspondence and oracle; DateTime.add/subtract themselves belong to C04.")
+              "Interval endpoints are checked by correspondence and oracle; DateTime.add/subtract themselves belong to C04. "
+              "One fraction digit (Proofs/C13Frac.v): in both parsers the integer part reaches the constructor as an integer argument / a u32 field of its own, so every float "
+              "operation acts on digit/10 alone; that float part is evaluated once per digit in the kernel (10 digits x 4 resp. 5 units) and the integer part is proved to add "
+              "exactly for every digit string (CPython's accum() is translation invariant in its integer accumulator; no exact tie of the left-over occurs), hence no real-number "
+              "axioms: closed under the global context. dur_frac_1digit_partial (the former finite check over seven integer parts) is kept unchanged.")
 TECHNIQUE = "Coq proof over hand models (list-of-code-point strings, SpecFloat) + differential correspondence + exact rational oracle"
